@@ -20,6 +20,9 @@ def gen(rng, tid, mode):
     cfg = {"req": rng.choice([1, 3, 1000]), "seg_size": rng.choice([600, 1000000]), "cache": False}
     if mode != "off":
         cfg["enc_key"] = KEY1
+    if mode == "badkey":
+        # encryption is switched on but the configured key cannot be used: the server may refuse to start; if it serves, nothing may be in clear
+        cfg["enc_key"] = rng.choice(["", base64.b64encode(bytes(range(31))).decode(), KEY1 + "\n", "not base64 at all!", base64.b64encode(bytes(range(33))).decode()])
     if mode == "corrupt":
         cfg["cache"] = False
     ops = [{"op": "create_stream", "name": sname, "id": 1}, {"op": "create_topic", "stream": 1, "name": tname, "parts": 1, "id": 1},
@@ -57,9 +60,14 @@ def gen(rng, tid, mode):
         ops.append({"op": "catalog"})
         marks.update({"poll2": len(ops) - 2, "cat2": len(ops) - 1, "restart_same": len(ops) - 3})
     elif mode == "wrong":
-        ops.append({"op": "restart", "cfg": {"enc_key": KEY2}})
+        ops.append({"op": "restart", "cfg": {"enc_key": KEY2}, "go_on": True})
         ops.append({"op": "poll", "stream": 1, "topic": 1, "partition": 1, "kind": "offset", "value": 0, "count": 1000})
         marks.update({"restart_wrong": len(ops) - 2})
+        # the attempt under the other key must not have damaged anything: the right key still restores catalogue and data
+        ops.append({"op": "restart", "cfg": {"enc_key": KEY1}})
+        ops.append({"op": "poll", "stream": 1, "topic": 1, "partition": 1, "kind": "offset", "value": 0, "count": 1000})
+        ops.append({"op": "catalog"})
+        marks.update({"poll2": len(ops) - 2, "cat2": len(ops) - 1, "restart_same": len(ops) - 3})
     elif mode == "off":
         ops.append({"op": "restart", "cfg": {"enc_key": KEY1}})     # encryption switched on over clear data
         ops.append({"op": "poll", "stream": 1, "topic": 1, "partition": 1, "kind": "offset", "value": 0, "count": 1000})
@@ -71,7 +79,7 @@ def run(out, tier, seed, gate):
     t0 = time.time()
     rng = util.Rng(seed * 70001 + 19)
     n = 24 if tier == "quick" else 300
-    traces = [gen(rng, "C19-g%d" % i, ["same", "same", "wrong", "off", "corrupt"][i % 5]) for i in range(n)]
+    traces = [gen(rng, "C19-g%d" % i, ["same", "wrong", "off", "corrupt", "same", "wrong", "badkey"][i % 7]) for i in range(n)]
     impl = harness.run_traces("srv", [{a: b for a, b in t.items() if a not in ("marks", "mode")} for t in traces], shards=min(8, n))
     stats = {"polls_checked": 0, "messages_checked": 0, "leaks": 0, "clear_found_when_off": 0, "wrong_key_reported": 0, "files_searched": 0, "bytes_searched": 0}
     reported = 0
@@ -88,6 +96,9 @@ def run(out, tier, seed, gate):
                 out.violation("%s-%s" % (name, t["id"]), p)
                 reported += 1
 
+        if t["mode"] == "badkey" and "init_err" in ob:
+            stats["unusable_key_refused"] = stats.get("unusable_key_refused", 0) + 1
+            continue
         if "crash" in ob:
             bad("crash", "the server panicked (an undecryptable record must be reported as an error)", {"detail": ob["crash"][-800:]})
             continue
